@@ -15,9 +15,11 @@ import (
 	"strconv"
 	"strings"
 	"sync"
+	"syscall"
 	"time"
 
 	"github.com/diskfs/go-diskfs/filesystem"
+	"github.com/diskfs/go-diskfs/filesystem/iso9660"
 
 	"verif/harness/internal/core"
 	"verif/harness/internal/fsx"
@@ -43,12 +45,16 @@ var c18Kinds = map[string]c18Base{
 	"squashfs": {ID: "squashfs", Kind: "squashfs", Size: 1 << 20, Sector: 4096, Block: 4096},
 }
 
-func c18Entries(links bool) []fsx.Entry {
+func c18Entries(links, chain bool) []fsx.Entry {
 	es := []fsx.Entry{{Path: "a.txt", Data: fsx.Content(1, 700)}, {Path: "dir", Dir: true}, {Path: "dir/b.bin", Data: fsx.Content(2, 3000)},
 		{Path: "dir/sub", Dir: true}, {Path: "dir/sub/c", Data: fsx.Content(3, 10)}, {Path: "a long file name with spaces.text", Data: fsx.Content(4, 100)},
 		{Path: "empty", Data: []byte{}}, {Path: "big", Data: fsx.Content(5, 9000)}}
 	if links {
 		es = append(es, fsx.Entry{Path: "lnk", Link: "a.txt"}, fsx.Entry{Path: "dir/slow", Link: strings.Repeat("t/", 40) + "x"})
+		if chain {
+			// a target long enough for a chain of two continuation areas (ISO9660 Rock Ridge)
+			es = append(es, fsx.Entry{Path: "verylong", Link: strings.Repeat(strings.Repeat("c", 150)+"/", 19) + "end"})
+		}
 	}
 	return es
 }
@@ -63,7 +69,7 @@ func c18BuildBase(id, dir string) error {
 		if err != nil {
 			return err
 		}
-		if err := fsx.Populate(v.FS, c18Entries(id == "ext4")); err != nil {
+		if err := fsx.Populate(v.FS, c18Entries(id == "ext4", false)); err != nil {
 			return err
 		}
 		// two files grown alternately: fragmented chains / several extents
@@ -81,7 +87,7 @@ func c18BuildBase(id, dir string) error {
 		}
 		d = v.Dev
 	case "iso", "squashfs":
-		v, err := fsx.BuildImage(b.Kind, c18Entries(true), fsx.Opt{Size: b.Size})
+		v, err := fsx.BuildImage(b.Kind, c18Entries(true, id == "iso"), fsx.Opt{Size: b.Size, IsoOpts: &iso9660.FinalizeOptions{RockRidge: true}})
 		if err != nil {
 			return err
 		}
@@ -132,7 +138,7 @@ func c18BuildBase(id, dir string) error {
 
 var reRepoFrame = regexp.MustCompile(`github\.com/diskfs/go-diskfs/([^\s(]+(?:\([^)]*\))?[^\s(]*)\(`)
 
-var reRepoLine = regexp.MustCompile(`/repo/(\S+\.go:\d+)`)
+var reRepoLine = regexp.MustCompile(`/((?:filesystem|partition|disk|backend|sync|util)/\S+\.go:\d+)`)
 
 // c18Catch runs f; on panic returns the message and the innermost library function on the stack.
 func c18Catch(f func()) (msg, site string) {
@@ -186,6 +192,14 @@ func c18WalkObs(kind string, d *memdev.Dev, b c18Base, c18OnFile func(begin bool
 	var err error
 	if msg, site := c18Catch(func() { fs, err = fsx.OpenKind(kind, d, b.Size, 0, b.Sector, true) }); msg != "" {
 		return c18Result{Out: "panic", Detail: "open: " + msg, Site: site}
+	}
+	if err != nil && strings.HasPrefix(err.Error(), "panic in ") {
+		// fsx.OpenKind recovers panics of the Read functions and reports them as errors of this form
+		site := "open"
+		if i := strings.Index(err.Error(), ".Read:"); i > 0 {
+			site = "filesystem/" + strings.TrimPrefix(err.Error()[:i], "panic in ") + ".Read"
+		}
+		return c18Result{Out: "panic", Detail: "open: " + err.Error(), Site: site}
 	}
 	if err != nil || fs == nil {
 		return c18Result{Out: "error", Detail: fmt.Sprint(err)}
@@ -300,7 +314,7 @@ func c18WalkObs(kind string, d *memdev.Dev, b c18Base, c18OnFile func(begin bool
 }
 
 // ---- values ----
-func c18Value(cls string, w int, orig []byte, off int64, b c18Base) ([]byte, bool) {
+func c18Value(cls string, w int, orig []byte, off int64, b c18Base, tablen uint64) ([]byte, bool) {
 	var o uint64
 	for i := w - 1; i >= 0; i-- {
 		o = o<<8 | uint64(orig[i])
@@ -312,6 +326,10 @@ func c18Value(cls string, w int, orig []byte, off int64, b c18Base) ([]byte, boo
 		v = 0
 	case "one":
 		v = 1
+	case "four":
+		v = 4
+	case "eight":
+		v = 8
 	case "ones":
 		v = mask
 	case "msb":
@@ -336,6 +354,11 @@ func c18Value(cls string, w int, orig []byte, off int64, b c18Base) ([]byte, boo
 		v = uint64(b.Size)
 	case "imgblks":
 		v = uint64(b.Size / b.Block)
+	case "fattablen":
+		if tablen == 0 {
+			return nil, false
+		}
+		v = tablen
 	default:
 		return nil, false
 	}
@@ -391,16 +414,25 @@ func c18Child(job map[string]any) map[string]any {
 		done := make(chan c18Result, 1)
 		go func() { done <- c18Walk(b.Kind, d, b) }()
 		var r c18Result
-		select {
-		case r = <-done:
-		case <-time.After(c18Deadline):
-			// the goroutine cannot be stopped: answer and let the process end
-			stuck = true
-			runtime.ReadMemStats(&m1)
-			results[cls] = map[string]any{"out": "hang", "detail": fmt.Sprintf("open + walk did not finish within %v", c18Deadline), "site": "", "ms": time.Since(t0).Milliseconds(), "alloc_mb": int((m1.TotalAlloc - m0.TotalAlloc) >> 20), "peak_mb": int64(m1.Sys>>20) - int64(m0.Sys>>20), "nodes": 0}
-			return
+		cpu0 := cpuMillis()
+		finished := false
+		for !finished {
+			select {
+			case r = <-done:
+				finished = true
+			case <-time.After(200 * time.Millisecond):
+				// time is CPU time of this process (one case at a time): a loaded machine must not
+				// turn a slow case into a hang; the wall-clock limit is only a backstop
+				if cpuMillis()-cpu0 > c18Deadline.Milliseconds() || time.Since(t0) > 90*time.Second {
+					// the goroutine cannot be stopped: answer and let the process end
+					stuck = true
+					runtime.ReadMemStats(&m1)
+					results[cls] = map[string]any{"out": "hang", "detail": fmt.Sprintf("open + walk still running after %d ms of CPU time (%v wall)", cpuMillis()-cpu0, time.Since(t0).Round(time.Millisecond)), "site": "", "ms": cpuMillis() - cpu0, "alloc_mb": int((m1.TotalAlloc - m0.TotalAlloc) >> 20), "peak_mb": int64(m1.Sys>>20) - int64(m0.Sys>>20), "nodes": 0}
+					return
+				}
+			}
 		}
-		ms := time.Since(t0).Milliseconds()
+		ms := cpuMillis() - cpu0
 		runtime.ReadMemStats(&m1)
 		restore()
 		// cumulative allocation, less what a walk over that many entries normally costs (every open
@@ -473,7 +505,8 @@ func c18Child(job map[string]any) map[string]any {
 	for _, c := range job["classes"].([]any) {
 		cls := fmt.Sprint(c)
 		apply(cls, func() (func(), bool) {
-			nb, ok := c18Value(cls, w, orig, off, b)
+			tl, _ := job["tablen"].(float64)
+			nb, ok := c18Value(cls, w, orig, off, b, uint64(tl))
 			if !ok {
 				return nil, false
 			}
@@ -485,6 +518,15 @@ func c18Child(job map[string]any) map[string]any {
 }
 
 const c18Deadline = 4 * time.Second
+
+// cpuMillis is the CPU time (user + system) this process has used
+func cpuMillis() int64 {
+	var ru syscall.Rusage
+	if syscall.Getrusage(syscall.RUSAGE_SELF, &ru) != nil {
+		return 0
+	}
+	return ru.Utime.Sec*1000 + int64(ru.Utime.Usec)/1000 + ru.Stime.Sec*1000 + int64(ru.Stime.Usec)/1000
+}
 
 func init() { childRoles["c18"] = c18Child }
 
@@ -671,7 +713,7 @@ func c18Positions(b c18Base, d *memdev.Dev) (consumed []memdev.Range, cleanNodes
 func C18(c *core.Ctx) {
 	c.Level = "fault_enumeration"
 	c.Rule = "case = one (base image, field position, width, value class): base images FAT12/16/32 and ext4 written by the library (nested directories, long names, two files grown alternately, fast and slow symlinks), an ext4 image built by mke2fs (hash-indexed directory, extent tree with an index node, xattr block), ISO9660+Rock Ridge and squashfs images finalized by the library; positions = EVERY aligned 1/2/4-byte word among the bytes the reader consumes during a clean open + full walk (device reads recorded, reduced to the neighbourhood of non-zero bytes) and every in-use FAT entry; value classes of Corrupt.tla (zero, one, all ones, top bit, +1, -1, doubled, bit flips, own sector/block number, image size; FAT: free, 1, self, chain head, predecessor, past the end, EOC, bad); enumerated by TLC x positions, each executed in a child process; non-trivial = every case changes at least one consumed byte (distinct key = base/offset/width/class)"
-	c.Assumptions = []string{"child processes with ulimit -v 4 GiB; a position whose classes do not answer within the deadline is re-run class by class", "time bound 4 s per case, allocation bound 64 MiB + 16 x image size (runtime TotalAlloc delta around open + walk)", "the walker caps depth (12), nodes (3000) and bytes read per file (2 x image size): a damaged image may describe an endless tree", "quick tier: widths 1 and 4 at every position with a reduced class set, FAT classes complete; thorough: everything"}
+	c.Assumptions = []string{"child processes with ulimit -v 4 GiB; a position whose classes do not answer within the deadline is re-run class by class", "time bound 4 s of CPU time per case (wall-clock backstop 90 s), allocation bound 64 MiB + 16 x image size (runtime TotalAlloc delta around open + walk)", "the walker caps depth (12), nodes (3000) and bytes read per file (2 x image size): a damaged image may describe an endless tree", "quick tier: widths 1 and 4 at every position with a reduced class set, FAT classes complete; thorough: everything"}
 	work, err := os.MkdirTemp("", "c18")
 	if err != nil {
 		c.Broken("tmp: %v", err)
@@ -716,7 +758,7 @@ func C18(c *core.Ctx) {
 		off, _ := strconv.ParseInt(f[1], 10, 64)
 		w, _ := strconv.Atoi(f[2])
 		orig := d.Bytes(off, int64(w))
-		nb, _ := c18Value(f[3], w, orig, off, b)
+		nb, _ := c18Value(f[3], w, orig, off, b, 0)
 		fmt.Printf("orig % x new % x context % x\n", orig, nb, d.Bytes(off/32*32, 32))
 		d.Poke(off, nb)
 		var m0, m1 runtime.MemStats
@@ -757,6 +799,13 @@ func C18(c *core.Ctx) {
 			var jobs []map[string]any
 			for _, id := range bases {
 				b := c18Kinds[id]
+				tablen := 0
+				if strings.HasPrefix(b.Kind, "fat") {
+					if v, err := rawfat.Parse(devs[id], 0, b.Size); err == nil {
+						bits := map[string]int64{"fat12": 12, "fat16": 16, "fat32": 32}[v.Type]
+						tablen = int(v.FATSectors * int64(v.BPS) * 8 / bits)
+					}
+				}
 				for _, w := range []int{1, 2, 4} {
 					cls := want[[2]string{id, strconv.Itoa(w)}]
 					if quick {
@@ -765,7 +814,7 @@ func C18(c *core.Ctx) {
 						}
 						var red []string
 						for _, x := range cls {
-							if w == 4 || x == "zero" || x == "ones" || x == "inc" || x == "flip7" {
+							if w == 4 || x == "zero" || x == "four" || x == "ones" || x == "inc" || x == "flip7" {
 								red = append(red, x)
 							}
 						}
@@ -778,7 +827,7 @@ func C18(c *core.Ctx) {
 							step = 1 // thorough: every byte offset, fields need not be aligned (ISO9660 records)
 						}
 						for off := (r.Off + step - 1) / step * step; off+int64(w) <= r.Off+r.Len; off += step {
-							jobs = append(jobs, map[string]any{"dir": work, "base": id, "off": off, "w": strconv.Itoa(w), "classes": cls})
+							jobs = append(jobs, map[string]any{"dir": work, "base": id, "off": off, "w": strconv.Itoa(w), "classes": cls, "tablen": tablen})
 							posCount[id+"/"+strconv.Itoa(w)]++
 						}
 					}
@@ -806,7 +855,7 @@ func C18(c *core.Ctx) {
 								continue
 							}
 							seen[cl] = true
-							vals := map[string]any{"f-free": 0, "f-one": 1, "f-self": cl, "f-head": ch[0], "f-past": uint32(v.DataClusters + 2), "f-eoc": eoc, "f-bad": eoc - 8}
+							vals := map[string]any{"f-free": 0, "f-one": 1, "f-self": cl, "f-head": ch[0], "f-past": uint32(v.DataClusters + 2), "f-tablen": uint32(v.FATSectors * int64(v.BPS) * 8 / int64(bits)), "f-eoc": eoc, "f-bad": eoc - 8}
 							if i > 0 {
 								vals["f-prev"] = ch[i-1]
 							}
@@ -878,7 +927,7 @@ func C18(c *core.Ctx) {
 			}
 			pending := jobs
 			for round := 0; len(pending) > 0 && round < 40; round++ {
-				res := runChildren("c18", pending, 60*time.Second, 4<<20, 14)
+				res := runChildren("c18", pending, 300*time.Second, 4<<20, 14)
 				var next []map[string]any
 				for i, r := range res {
 					j := pending[i]
